@@ -8,6 +8,15 @@ from .impl import MODEL, RATING, hx, id_str, make_model, py_name, to_python
 OMIT = ("N",)
 
 
+class ImplRaised(Exception):
+    """the implementation raised on a call that a monitor made expecting a normal return"""
+
+    def __init__(self, case, exc):
+        Exception.__init__(self, "%s: %s" % (type(exc).__name__, exc))
+        self.case = case
+        self.exc = exc
+
+
 def nums_of(teams_val):
     """[(mu, sigma)] per team from a ("L", [("L", [("R", ...)])]) value"""
     return [[(p[2], p[3]) for p in t[1]] for t in teams_val[1]]
@@ -35,7 +44,11 @@ def call_rate(kind, st, teams, ranks=OMIT, scores=OMIT, tau=OMIT, lim=OMIT, mode
     for nm, v in (("ranks", ranks), ("scores", scores), ("tau", tau), ("limit_sigma", lim)):
         if v != OMIT:
             kw[nm] = to_python(v)
-    res = m.rate(objs, **kw)
+    try:
+        res = m.rate(objs, **kw)
+    except Exception as e:  # noqa: BLE001
+        raise ImplRaised({"op": "rate", "kind": kind, "st": st, "teams": teams, "ranks": ranks, "scores": scores,
+                          "tau": tau, "lim": lim}, e) from e
     return [[(p.mu, p.sigma) for p in t] for t in res], res, objs, m
 
 
@@ -43,13 +56,19 @@ def rate_nums(kind, st, teams, **kw):
     return call_rate(kind, st, teams, **kw)[0]
 
 
-def call_predict(op, kind, st, teams, model=None, share=False):
+def call_predict(op, kind, st, teams, model=None, share=False, alias=None):
+    """alias: list of (j, i): position j holds the very same list object as position i"""
     if not (isinstance(teams, tuple) and teams and teams[0] == "L"):
         teams = teams_val(kind, teams)
     m = model if model is not None else make_model(kind, st)
     objs = to_python(teams, share={} if share else None)
+    for j, i in (alias or []):
+        objs[j] = objs[i]
     f = {"pwin": m.predict_win, "pdraw": m.predict_draw, "prank": m.predict_rank}[op]
-    return f(objs)
+    try:
+        return f(objs)
+    except Exception as e:  # noqa: BLE001
+        raise ImplRaised({"op": op, "kind": kind, "st": st, "teams": teams, "share": share, "alias": alias}, e) from e
 
 
 def hexnums(res):
